@@ -59,7 +59,8 @@ class W:
             sym = next((o for n, o in self.obj.items() if self.kind[n] == "Symbol"), None)
             if sym is None:
                 sym = self.g.Symbol("exprsym")
-            e = self.g.SymAddrConst(k, sym)
+            # (both expression classes take part: even numbers are sym-minus-sym expressions)
+            e = self.g.SymAddrConst(k, sym) if k % 2 else self.g.SymAddrAddr(1, k, sym, sym)
             self.exprs[k] = e
             self.expr_num[id(e)] = k
         return self.exprs[k]
